@@ -140,7 +140,45 @@ func (e *c19env) rulePools(fC, fD *Func) {
 	c, m := e.c, e.m
 	rule := "pool-discipline"
 	n := 0
-	for _, f := range []*Func{fC, fD} {
+	// compression.go's Compress/Decompress plus every function of package kgo
+	// that takes a buffer from the shared byteBuffers pool (whose New returns
+	// a buffer of non-zero length and whose users put dirty buffers back)
+	bb := m.Object("kgo", "byteBuffers")
+	isBBGet := func(f *Func, x ast.Node) bool {
+		ta, ok := x.(*ast.TypeAssertExpr)
+		if !ok || bb == nil {
+			return false
+		}
+		p := c19poolOfGet(f.Info(), ta)
+		return p != nil && c19objOf(f.Info(), p) == bb
+	}
+	targets := []*Func{fC, fD}
+	nbb, nbbSeen := 0, 0
+	for _, f := range e.funcs {
+		deep := len(findNodes(f.Decl.Body, true, func(x ast.Node) bool { return isBBGet(f, x) }))
+		if deep == 0 {
+			continue
+		}
+		nbb += deep
+		own := 0
+		for _, x := range findNodes(f.Decl.Body, false, func(x ast.Node) bool {
+			a, ok := x.(*ast.AssignStmt)
+			return ok && len(a.Lhs) == 1 && len(a.Rhs) == 1 && isBBGet(f, unparen(a.Rhs[0]))
+		}) {
+			_ = x
+			own++
+		}
+		nbbSeen += own
+		if own != deep {
+			c.Undecided(rule, f.Key+": byteBuffers#shape", f.Pos(), m, "a byteBuffers.Get() is not of the form `x := byteBuffers.Get().(*bytes.Buffer)` in the function's own body (inside a closure or not assigned): its Reset/Put discipline cannot be followed")
+		}
+		if f != fC && f != fD {
+			targets = append(targets, f)
+			c.Touch(f)
+		}
+	}
+	c.Floor(rule+"/byteBuffers-gets", nbbSeen, 4)
+	for _, f := range targets {
 		info := f.Info()
 		g := f.Graph()
 		for _, x := range findNodes(f.Decl.Body, false, func(x ast.Node) bool {
@@ -183,6 +221,20 @@ func (e *c19env) rulePools(fC, fD *Func) {
 				if !ok {
 					return false
 				}
+				if fl, isLit := unparen(d.Call.Fun).(*ast.FuncLit); isLit {
+					// defer func() { ...; P.Put(x) }()
+					return containsNode(fl.Body, false, func(y ast.Node) bool {
+						pc, ok := y.(*ast.CallExpr)
+						if !ok || len(pc.Args) != 1 {
+							return false
+						}
+						pf, _ := calleeObj(info, pc).(*types.Func)
+						if pf == nil || keyOfObj(pf) != "sync.Pool.Put" {
+							return false
+						}
+						return exprStr(pc.Fun.(*ast.SelectorExpr).X) == ps && c19objOf(info, pc.Args[0]) == obj
+					})
+				}
 				fn, _ := calleeObj(info, d.Call).(*types.Func)
 				if fn == nil || keyOfObj(fn) != "sync.Pool.Put" || len(d.Call.Args) != 1 {
 					return false
@@ -199,7 +251,7 @@ func (e *c19env) rulePools(fC, fD *Func) {
 					return false
 				}
 				s, ok := unparen(call.Fun).(*ast.SelectorExpr)
-				return ok && s.Sel.Name == "Reset" && c19objOf(info, s.X) == obj
+				return ok && (s.Sel.Name == "Reset" || s.Sel.Name == "Truncate") && c19objOf(info, s.X) == obj
 			}
 			_, leak := g.FindPath(gl, SearchOpts{Stop: isPut, GoalExit: func(ExitKind, ast.Node) bool { return true },
 				GoalNode: func(nd ast.Node) bool { return !isPut(nd) && !isResetStmt(nd) && mentionsObj(nd, info, obj, false) }})
@@ -216,7 +268,14 @@ func (e *c19env) rulePools(fC, fD *Func) {
 						return false
 					}
 					s, ok := unparen(call.Fun).(*ast.SelectorExpr)
-					return ok && s.Sel.Name == "Reset" && c19objOf(info, s.X) == obj
+					if !ok || c19objOf(info, s.X) != obj {
+						return false
+					}
+					if s.Sel.Name == "Truncate" && len(call.Args) == 1 {
+						v, okc := constInt(info, call.Args[0])
+						return okc && v == 0
+					}
+					return s.Sel.Name == "Reset"
 				})
 			}
 			if isStream {
@@ -224,7 +283,7 @@ func (e *c19env) rulePools(fC, fD *Func) {
 					return !isPut(nd) && !isReset(nd) && mentionsObj(nd, info, obj, false)
 				}})
 				n++
-				c.Check(!dirty, rule, base+"#reset", as.Pos(), m, "Reset before first use", "the pooled "+ts+" is used before Reset: state and destination of the previous batch leak into this one")
+				c.Check(!dirty, rule, base+"#reset", as.Pos(), m, "Reset before first use", "the pooled "+ts+" is used (written, passed to Compress, ...) before it is Reset on some path: the pool's New returns a non-empty buffer and other users put dirty buffers back, so stale bytes / the previous destination precede this batch's output (compressed data no longer decompresses)")
 				// reset argument
 				for _, y := range findNodes(f.Decl.Body, false, func(y ast.Node) bool {
 					call, ok := y.(*ast.CallExpr)
@@ -271,7 +330,7 @@ func (e *c19env) rulePools(fC, fD *Func) {
 			}
 		}
 	}
-	c.Floor(rule, n, 25)
+	c.Floor(rule, n, 34)
 }
 
 // writerFlush: dst.Bytes() after a streaming writer is read only after Close with all errors checked, and src is written whole.
